@@ -443,3 +443,50 @@ Proof.
   - change (with_imlevel 1 (layout s locals fd iml0)) with (layout s locals fd 1).
     rewrite fromFunction_correct; auto. unfold spec_info, visible. now rewrite E.
 Qed.
+
+(* ---- the description is faithful: it determines the positional parameters with their defaults,
+   the * and ** names and the attributes (everything the statement lists), and nothing of the
+   keyword-only parameters or the local variables *)
+Lemma params_determined P1 P2 :
+  dflt_suffix P1 = true -> dflt_suffix P2 = true ->
+  required_of P1 = required_of P2 -> optional_of P1 = optional_of P2 -> P1 = P2.
+Proof.
+  intros H1 H2 Hr Ho.
+  destruct (dflt_suffix_split P1 H1) as (R1 & O1 & ->).
+  destruct (dflt_suffix_split P2 H2) as (R2 & O2 & ->).
+  rewrite !required_split in Hr. rewrite !optional_split in Ho. now subst.
+Qed.
+
+Lemma dflt_suffix_skipn i P : dflt_suffix P = true -> dflt_suffix (skipn i P) = true.
+Proof.
+  intros H. destruct (dflt_suffix_split P H) as (R & O & ->). rewrite skipn_split.
+  generalize (skipn i R) (skipn (i - length R) O). clear.
+  intros R O. induction R as [|n R IH]; cbn; auto.
+  destruct O as [|[n d] O]; cbn; auto.
+  unfold opt_params. rewrite forallb_forall. intros x Hx. apply in_map_iff in Hx.
+  destruct Hx as (y & <- & _). reflexivity.
+Qed.
+
+Lemma description_faithful :
+  forall (s1 s2 : signature) (l1 l2 : list name) (fd1 fd2 : list (name * dflt)) (iml : nat),
+  valid s1 -> NoDup (map fst fd1) -> valid s2 -> NoDup (map fst fd2) ->
+  fromFunction (layout s1 l1 fd1 iml) = fromFunction (layout s2 l2 fd2 iml) ->
+  visible s1 iml = visible s2 iml /\ vararg s1 = vararg s2 /\ varkw s1 = varkw s2 /\ fd1 = fd2.
+Proof.
+  intros s1 s2 l1 l2 fd1 fd2 iml Hv1 Hf1 Hv2 Hf2 E.
+  rewrite !fromFunction_correct in E by assumption.
+  unfold spec_info in E. injection E as _ Hr Ho Hva Hvk Hfd.
+  repeat split; auto.
+  apply params_determined; auto; unfold visible; apply dflt_suffix_skipn; [apply Hv1 | apply Hv2].
+Qed.
+
+Lemma description_ignores_kwonly_and_locals :
+  forall (s1 s2 : signature) (l1 l2 : list name) (fd : list (name * dflt)) (iml : nat),
+  valid s1 -> valid s2 -> NoDup (map fst fd) ->
+  posonly s1 ++ pos s1 = posonly s2 ++ pos s2 -> vararg s1 = vararg s2 -> varkw s1 = varkw s2 ->
+  fromFunction (layout s1 l1 fd iml) = fromFunction (layout s2 l2 fd iml).
+Proof.
+  intros s1 s2 l1 l2 fd iml Hv1 Hv2 Hf Hp Hva Hvk.
+  rewrite !fromFunction_correct by assumption.
+  unfold spec_info, visible, positionals. now rewrite Hp, Hva, Hvk.
+Qed.
